@@ -485,6 +485,7 @@ def run(ctx):
             {'env': {'PIKA_THREADS': '5'}, 'args': ['--pika:threads=3'], 'src': {'threads': {'env': '5', 'cmdopt': '3'}}},
             {'env': {}, 'args': ['a"b', 'x'], 'src': {}},
             {'env': {}, 'args': ['a\\b', 'x'], 'src': {}},
+            {'env': {}, 'args': ["a'b", 'x'], 'src': {}},
             {'env': {}, 'args': ['', 'x'], 'src': {}},
             {'env': {}, 'args': ['--pika:bogus=1'], 'src': {}, 'unknown': '--pika:bogus=1'},
             {'env': {'PIKA_NUMA_SENSITIVE': '2'}, 'args': ['x', '--pika:numa-sensitive'], 'src': {'numa': {'env': '2', 'cmdopt': '0'}}},
